@@ -5,6 +5,7 @@ import Grexv.Lemmas.AsciiPipeline
 import Grexv.Lemmas.Stages
 import Grexv.Lemmas.EndToEnd
 import Grexv.Lemmas.SurRel
+import Grexv.Lemmas.SurEmit
 import Grexv.Props.C08
 
 /-!
@@ -205,9 +206,42 @@ theorem surrogate_output_related (cfg : Config) (hc : cfg.color = false) (hv : c
   rw [f1, h1, ← f2]
   exact surRel_regexp cfg hc hv _ hwf
 
+/-! ## decoding the surrogate pairs, as a function of the text -/
+
+/-- **C11 (re-pairing surrogates gives the `-e` text), whole pattern** for every well-formed expression, not verbose and without colours:
+read token by token — a character other than the backslash, a backslash with the character it escapes, one `\u{h…}` that is not a high
+surrogate, or a high surrogate escape followed by a low one — the text printed with surrogate pairs decodes to the text printed with
+`-e` alone: every pair becomes the escape of the code point it encodes (`pairValue`), every other token is unchanged.  Unlike
+`surrogate_text_is_escaped_text_with_pairs` this relation is a function of its first argument (`surrogate_decoding_unique`) -/
+theorem surrogate_text_decodes (cfg : Config) (hc : cfg.color = false) (hv : cfg.verb = false) (e : Expr) (h : e.WF) :
+    SurEmit (fmtRegExp (withSur cfg true) e) (fmtRegExp (withSur cfg false) e) := surEmit_regexp cfg hc hv e h
+
+theorem surrogate_decoding_unique {s p q : Str} (h1 : SurEmit s p) (h2 : SurEmit s q) : p = q := h1.unique h2
+
+/-- a pair of surrogate escapes decodes to the code point the printer started from -/
+theorem pair_decodes (c : Nat) (h1 : 0x10000 ≤ c) (h2 : c ≤ 0x10FFFF) :
+    pairValue (0xD800 + (c - 0x10000) / 1024) (0xDC00 + (c - 0x10000) % 1024) = c := by
+  unfold pairValue; omega
+
+/-- **C11 (re-pairing surrogates, whole run, all inputs without `-r`, an anchor in place)** what `build()` returns with surrogate pairs
+decodes to what it returns with `-e` alone -/
+theorem surrogate_output_decodes (cfg : Config) (hc : cfg.color = false) (hv : cfg.verb = false) (hrep : cfg.rep = false)
+    (hanch : ¬ (cfg.noStart = true ∧ cfg.noEnd = true)) (env : Env) (ws : List Str) (stS stN : Stages)
+    (hS : regExpFrom (withSur cfg true) env ws = .ok stS) (hN : regExpFrom (withSur cfg false) env ws = .ok stN)
+    (hseg : ∀ w ∈ storedCases cfg env ws, SegOK env w) (hws : ws ≠ []) :
+    SurEmit (fmtRegExp (withSur cfg true) stS.finalAst) (fmtRegExp (withSur cfg false) stN.finalAst) := by
+  have hsame : SameStageInputs (withSur cfg true) (withSur cfg false) := ⟨rfl, rfl, rfl, rfl, rfl, rfl, rfl, rfl, rfl, rfl, rfl⟩
+  have h1 := (firstAst_independent hsame env ws stS stN hS hN).2.2.2.2
+  have f1 := (Props.C08.no_selfcheck_when_anchored (withSur cfg true) env ws stS hanch hS).1
+  have f2 := (Props.C08.no_selfcheck_when_anchored (withSur cfg false) env ws stN hanch hN).1
+  have hwf : stN.finalAst.WF := final_expr_wf (withSur cfg false) hrep env ws stN hN hseg hws
+  rw [f1, h1, ← f2]
+  exact surEmit_regexp cfg hc hv _ hwf
+
 /-! non-vacuity -/
 example : Expr.escapeChar 0x1F4A9 true = strOf "\\u{d83d}\\u{dca9}" := by decide
 example : Expr.escapeChar 0x10FFFF true = strOf "\\u{dbff}\\u{dfff}" := by decide
 example : Expr.escapeChar 0xE9 true = strOf "\\u{e9}" := by decide
+example : pairValue 0xD83D 0xDCA9 = 0x1F4A9 := by decide
 
 end Grexv.Props.C11
